@@ -484,7 +484,11 @@ Definition mode_start_script (use_wait_queue forward : bool) (starting_ev : Z) :
 (* ------------------------------------------------------------------------------------------- *)
 (* Part 2: relay and boolean events (_run_handlers + _process_event)                              *)
 
-Inductive result := RNone | RBool (b : bool) | RInt (z : Z) | RDict (d : list (Z * Z)).
+(* kwargs['_min_priority'] = {'all': a, facility: p, ...} *)
+Definition minprio := (Z * list (Z * Z))%type.
+
+Inductive result := RNone | RBool (b : bool) | RInt (z : Z) | RDict (d : list (Z * Z))
+                  | RDictMP (d : list (Z * Z)) (m : minprio).      (* a dict containing the key '_min_priority' *)
 
 Definition truthy (r : result) : bool :=
   match r with
@@ -492,31 +496,61 @@ Definition truthy (r : result) : bool :=
   | RBool b => b
   | RInt z => negb (z =? 0)
   | RDict d => match d with [] => false | _ => true end
+  | RDictMP _ _ => true
   end.
 
 Inductive evtype := TPlain | TRelay | TBoolean.
 
-(* a synchronous handler: its return value as a function of the kwargs it is called with *)
-Record shandler := mkSH { sh_id : Z; sh_res : kwargs -> result }.
+(* the event's kwargs while _run_handlers runs: data kwargs and the optional '_min_priority' entry *)
+Definition sstate := (kwargs * option minprio)%type.
+
+(* a synchronous handler: priority, kwargs it was registered with, blocking facility, and its return value as a
+   function of the arguments it is called with *)
+Record shandler := mkSH { sh_id : Z; sh_prio : Z; sh_kw : list (Z * Z); sh_fac : option Z;
+                          sh_res : sstate -> result }.
+
+(* '_min_priority' in kwargs and handler.blocking_facility and (mp['all'] > prio or
+   (facility in mp and mp[facility] > prio)) : the handler is skipped *)
+Definition blocked (h : shandler) (mp : option minprio) : bool :=
+  match mp, sh_fac h with
+  | Some (a, facs), Some f =>
+      (sh_prio h <? a) || match kw_get f facs with Some p => sh_prio h <? p | None => false end
+  | _, _ => false
+  end.
+
+(* merged_kwargs: the event's CURRENT kwargs overridden by the kwargs the handler was registered with
+   (all three branches of the if/elif/else in _run_handlers denote this dict) *)
+Definition hview (h : shandler) (st : sstate) : sstate := (kw_update (fst st) (sh_kw h), snd st).
+
+(* what a handler's result does to the event's kwargs *)
+Definition apply_res (t : evtype) (r : result) (st : sstate) : sstate :=
+  match t, r with
+  | TRelay, RDict d => (kw_update (fst st) d, snd st)                (* kwargs.update(result) *)
+  | TRelay, RDictMP d m => (kw_update (fst st) d, Some m)
+  | _, RDictMP _ m => (fst st, Some m)                               (* kwargs['_min_priority'] = result[...] *)
+  | _, _ => st
+  end.
 
 Record sync_out := mkSO {
-  so_seen : list (Z * kwargs);       (* (handler id, kwargs it saw), in call order *)
-  so_kwargs : kwargs;                (* kwargs handed to the callback (without ev_result) *)
+  so_seen : list (Z * sstate);       (* (handler id, arguments it saw), in call order *)
+  so_st : sstate;                    (* kwargs handed to the callback (without ev_result) *)
   so_false : bool;                   (* kwargs['ev_result'] = False was set by the boolean abort *)
   so_last : result }.                (* result of the last handler called *)
 
-Fixpoint run_sync (t : evtype) (hs : list shandler) (kw : kwargs) (seen : list (Z * kwargs)) (last : result)
+Fixpoint run_sync (t : evtype) (hs : list shandler) (st : sstate) (seen : list (Z * sstate)) (last : result)
   : sync_out :=
   match hs with
-  | [] => mkSO (rev seen) kw false last
+  | [] => mkSO (rev seen) st false last
   | h :: hs' =>
-      let r := sh_res h kw in
-      let seen' := (sh_id h, kw) :: seen in
-      match t, r with
-      | TBoolean, RBool false => mkSO (rev seen') kw true r
-      | TRelay, RDict d => run_sync t hs' (kw_update kw d) seen' r
-      | _, _ => run_sync t hs' kw seen' r
-      end
+      if blocked h (snd st) then run_sync t hs' st seen last
+      else
+        let v := hview h st in
+        let r := sh_res h v in
+        let seen' := (sh_id h, v) :: seen in
+        match t, r with
+        | TBoolean, RBool false => mkSO (rev seen') st true r
+        | _, _ => run_sync t hs' (apply_res t r st) seen' r
+        end
   end.
 
 (* what the callback receives: kwargs, plus ev_result = last result when truthy, else False if aborted *)
@@ -529,36 +563,56 @@ Definition callback_evres (o : sync_out) : evres :=
 Inductive sbeh :=
 | BConst (r : result)                 (* return r *)
 | BIncr (k : Z)                       (* return {k: kwargs.get(k, 0) + 1} *)
-| BFalseIf (k v : Z).                 (* return False if kwargs.get(k) == v else True *)
+| BFalseIf (k v : Z)                  (* return False if kwargs.get(k) == v else True *)
+| BBlock (f p : Z).                   (* block_event_player: mp = copy of kwargs.get('_min_priority', {'all': 0});
+                                         mp[f] = p; return {'_min_priority': mp} *)
 
-Definition beh_fun (b : sbeh) : kwargs -> result :=
+Definition beh_fun (b : sbeh) : sstate -> result :=
   match b with
   | BConst r => fun _ => r
-  | BIncr k => fun kw => RDict [(k, match kw_get k kw with Some v => v + 1 | None => 1 end)]
-  | BFalseIf k v => fun kw => match kw_get k kw with
+  | BIncr k => fun st => RDict [(k, match kw_get k (fst st) with Some v => v + 1 | None => 1 end)]
+  | BFalseIf k v => fun st => match kw_get k (fst st) with
                               | Some v' => RBool (negb (v =? v'))
                               | None => RBool true
                               end
+  | BBlock f p => fun st => match snd st with
+                            | Some (a, facs) => RDictMP [] (a, kw_set f p facs)
+                            | None => RDictMP [] (0, [(f, p)])
+                            end
   end.
 
-Definition mk_sh (x : Z * Z * sbeh) : shandler := mkSH (fst (fst x)) (beh_fun (snd x)).
+(* a registration: id, priority, registered kwargs, blocking facility, behaviour *)
+Record sreg := mkSR { sr_id : Z; sr_prio : Z; sr_kw : list (Z * Z); sr_fac : option Z; sr_beh : sbeh }.
 
-(* registrations (id, priority, behaviour) in registration order -> priority order (stable) *)
-Fixpoint insert_s (x : Z * Z * sbeh) (l : list (Z * Z * sbeh)) :=
+Definition mk_sh (x : sreg) : shandler := mkSH (sr_id x) (sr_prio x) (sr_kw x) (sr_fac x) (beh_fun (sr_beh x)).
+
+(* registrations in registration order -> priority order (stable) *)
+Fixpoint insert_s (x : sreg) (l : list sreg) :=
   match l with
   | [] => [x]
-  | y :: l' => if snd (fst y) <? snd (fst x) then x :: l else y :: insert_s x l'
+  | y :: l' => if sr_prio y <? sr_prio x then x :: l else y :: insert_s x l'
   end.
 
-Definition sort_s (l : list (Z * Z * sbeh)) := fold_left (fun acc x => insert_s x acc) l [].
+Definition sort_s (l : list sreg) := fold_left (fun acc x => insert_s x acc) l [].
 
-Definition sync_run (inp : evtype * list (Z * Z * sbeh) * list (Z * Z)) : sync_out * evres :=
+Definition sync_run (inp : evtype * list sreg * (list (Z * Z) * option minprio)) : sync_out * evres :=
   let t := fst (fst inp) in
-  let o := run_sync t (map mk_sh (sort_s (snd (fst inp)))) (kw_norm (snd inp)) [] RNone in
+  let o := run_sync t (map mk_sh (sort_s (snd (fst inp)))) (kw_norm (fst (snd inp)), snd (snd inp)) [] RNone in
   (o, callback_evres o).
 
 Definition zz_eqb (a b : Z * Z) : bool := (fst a =? fst b) && (snd a =? snd b).
 Definition kw_eqb : kwargs -> kwargs -> bool := list_eqb zz_eqb.
+
+Definition mp_eqb (a b : minprio) : bool := (fst a =? fst b) && kw_eqb (kw_norm (snd a)) (kw_norm (snd b)).
+
+Definition omp_eqb (a b : option minprio) : bool :=
+  match a, b with
+  | None, None => true
+  | Some x, Some y => mp_eqb x y
+  | _, _ => false
+  end.
+
+Definition sstate_eqb (a b : sstate) : bool := kw_eqb (fst a) (fst b) && omp_eqb (snd a) (snd b).
 
 Definition result_eqb (a b : result) : bool :=
   match a, b with
@@ -566,6 +620,7 @@ Definition result_eqb (a b : result) : bool :=
   | RBool x, RBool y => Bool.eqb x y
   | RInt x, RInt y => x =? y
   | RDict x, RDict y => kw_eqb (kw_norm x) (kw_norm y)      (* dicts compare as maps *)
+  | RDictMP x m, RDictMP y n => kw_eqb (kw_norm x) (kw_norm y) && mp_eqb m n
   | _, _ => false
   end.
 
@@ -577,10 +632,10 @@ Definition evres_eqb (a b : evres) : bool :=
   | _, _ => false
   end.
 
-Definition seen_eqb (a b : Z * kwargs) : bool := (fst a =? fst b) && kw_eqb (snd a) (snd b).
+Definition seen_eqb (a b : Z * sstate) : bool := (fst a =? fst b) && sstate_eqb (snd a) (snd b).
 
 (* the harness reports: handlers' views, callback kwargs, callback ev_result *)
 Definition sync_out_eqb (a b : sync_out * evres) : bool :=
   list_eqb seen_eqb (so_seen (fst a)) (so_seen (fst b))
-  && kw_eqb (so_kwargs (fst a)) (so_kwargs (fst b))
+  && sstate_eqb (so_st (fst a)) (so_st (fst b))
   && evres_eqb (snd a) (snd b).
